@@ -193,6 +193,7 @@ pub struct SimReader<'a> {
     pub injected: Option<(u8, u64)>,
     pub calls_after_end: usize,
     pub zero_buf_calls: usize,
+    pub nested_bad: bool,
 }
 
 #[derive(Debug)]
@@ -220,7 +221,7 @@ pub fn err_kind(k: u8) -> std::io::ErrorKind {
 
 impl<'a> SimReader<'a> {
     pub fn new(sh: &'a Shared, data: &'a [u8], script: &'a ReaderScript) -> Self {
-        SimReader { sh, data, pos: 0, script, step: 0, calls: 0, ended: false, injected: None, calls_after_end: 0, zero_buf_calls: 0 }
+        SimReader { sh, data, pos: 0, script, step: 0, calls: 0, ended: false, injected: None, calls_after_end: 0, zero_buf_calls: 0, nested_bad: false }
     }
     fn give(&mut self, buf: &mut [u8], k: usize) -> usize {
         let n = k.min(buf.len()).min(self.data.len() - self.pos);
@@ -258,6 +259,22 @@ impl<'a> Read for SimReader<'a> {
                 } else if n < buf.len() {
                     self.sh.fault("short_read");
                 }
+                Ok(n)
+            }
+            Some(RStep::Nest(k, nested)) => {
+                let n = self.give(buf, (k as usize).max(1));
+                if n == 0 {
+                    self.ended = true;
+                }
+                // the bytes are in the consumer's buffer; now the same thread runs another reader-driven absorb
+                let other: Vec<u8> = (0..nested as usize).map(|i| (i as u8).wrapping_mul(31) ^ 0x6c).collect();
+                let mut h2 = blake3::Hasher::new();
+                let r2 = sched::quiet(|| h2.update_reader(&other[..]).map(|h| *h.finalize().as_bytes()));
+                let want2 = sched::quiet(|| *blake3::hash(&other).as_bytes());
+                if r2.ok() != Some(want2) {
+                    self.nested_bad = true;
+                }
+                self.sh.fault("nested_reader_absorb");
                 Ok(n)
             }
             Some(RStep::Interrupted) => {
@@ -321,6 +338,9 @@ fn judge_reader(
         (Err(e), None) => {
             return viol("result-mismatch", format!("adapter returned an error nobody injected: {:?}", e));
         }
+    }
+    if rd.nested_bad {
+        return viol("result-mismatch", "a nested update_reader on another hasher (same thread) hashed wrong bytes".into());
     }
     if rd.calls_after_end > 0 {
         return viol("result-mismatch", format!("reader was called {} more time(s) after end of file / hard error", rd.calls_after_end));
@@ -403,8 +423,22 @@ pub fn do_op(sh: &Arc<Shared>, local: &mut TaskLocal, op: &Op) -> OpResult {
             let h = match (via, &m) {
                 (NewVia::Trait, MMode::Hash) => <blake3::Hasher as blake3::traits::digest::Digest>::new(),
                 (NewVia::Trait, MMode::Keyed(k)) => {
-                    let key: blake3::traits::digest::Key<blake3::Hasher> = (*k).into();
-                    <blake3::Hasher as blake3::traits::digest::KeyInit>::new(&key)
+                    use blake3::traits::digest::KeyInit;
+                    // new_from_slice: exactly 32 bytes, nothing else
+                    let mut long = k.to_vec();
+                    long.push(k[0] ^ 0x55);
+                    if <blake3::Hasher as KeyInit>::new_from_slice(&long).is_ok() || <blake3::Hasher as KeyInit>::new_from_slice(&k[..31]).is_ok() {
+                        return viol("result-mismatch", "KeyInit::new_from_slice accepted a key that is not 32 bytes long".into());
+                    }
+                    if k[0] & 1 == 0 {
+                        match <blake3::Hasher as KeyInit>::new_from_slice(&k[..]) {
+                            Ok(h) => h,
+                            Err(_) => return viol("result-mismatch", "KeyInit::new_from_slice rejected a 32-byte key".into()),
+                        }
+                    } else {
+                        let key: blake3::traits::digest::Key<blake3::Hasher> = (*k).into();
+                        <blake3::Hasher as KeyInit>::new(&key)
+                    }
                 }
                 _ => fresh_hasher(&m),
             };
@@ -471,9 +505,28 @@ pub fn do_op(sh: &Arc<Shared>, local: &mut TaskLocal, op: &Op) -> OpResult {
                     did_reset = true;
                     out.into()
                 }
+                FinVia::TraitResetInto => {
+                    let mut out = digest::Output::<blake3::Hasher>::default();
+                    digest::FixedOutputReset::finalize_into_reset(&mut hs.h, &mut out);
+                    did_reset = true;
+                    out.into()
+                }
                 FinVia::MacOrDigest => {
                     if matches!(hs.mode, MMode::Keyed(_)) {
-                        digest::Mac::finalize(hs.h.clone()).into_bytes().into()
+                        let tag: [u8; 32] = digest::Mac::finalize(hs.h.clone()).into_bytes().into();
+                        // Mac::verify_slice accepts exactly this tag and nothing one bit away from it
+                        if digest::Mac::verify_slice(hs.h.clone(), &tag).is_err() {
+                            return viol("result-mismatch", "Mac::verify_slice rejected the tag Mac::finalize returned".into());
+                        }
+                        let mut bad = tag;
+                        bad[(hs.absorbed.len() % 32) as usize] ^= 1 << (hs.absorbed.len() % 8);
+                        if digest::Mac::verify_slice(hs.h.clone(), &bad).is_ok() {
+                            return viol("result-mismatch", "Mac::verify_slice accepted a tag with one bit flipped".into());
+                        }
+                        if digest::Mac::verify_truncated_left(hs.h.clone(), &tag[..16]).is_err() {
+                            return viol("result-mismatch", "Mac::verify_truncated_left rejected the first 16 bytes of the tag".into());
+                        }
+                        tag
                     } else {
                         digest::Digest::finalize(hs.h.clone()).into()
                     }
@@ -505,8 +558,17 @@ pub fn do_op(sh: &Arc<Shared>, local: &mut TaskLocal, op: &Op) -> OpResult {
             }
             use blake3::traits::digest;
             let mut did_reset = false;
+            if matches!(via, FinVia::TraitResetInto) {
+                // the provided method: fills the buffer and resets; no reader is handed out
+                let mut out = vec![0u8; n];
+                digest::ExtendableOutputReset::finalize_xof_reset_into(&mut hs.h, &mut out);
+                check_xof(sh, hs, 0, &out, "finalize_xof_reset_into")?;
+                after_reset(hs);
+                post_reset_check(hs)?;
+                return Ok(Fnv::of(&out) ^ 0x1270);
+            }
             let mut rd = match via {
-                FinVia::Inherent | FinVia::MacOrDigest => hs.h.finalize_xof(),
+                FinVia::Inherent | FinVia::MacOrDigest | FinVia::TraitResetInto => hs.h.finalize_xof(),
                 FinVia::TraitClone => digest::ExtendableOutput::finalize_xof(hs.h.clone()),
                 FinVia::TraitReset => {
                     did_reset = true;
@@ -535,6 +597,62 @@ pub fn do_op(sh: &Arc<Shared>, local: &mut TaskLocal, op: &Op) -> OpResult {
             Ok(dg)
         }
         Op::ConcurrentFinalize { h, n } => concurrent_finalize(sh, local, *h, *n),
+        Op::ParallelRayon { items, width } => {
+            // take the hashers out of their slots, feed them all inside one pool scope, put them back
+            let mut taken: Vec<(usize, Box<HSlot>, &[u8])> = Vec::new();
+            for (h, data, off, len) in items {
+                let bytes = d(sh, *data, *off, *len)?;
+                if taken.iter().any(|(s, _, _)| s == h) {
+                    continue;
+                }
+                match local.slots.remove(h) {
+                    Some(Slot::H(x)) if absorb_domain_ok(&x, bytes.len()) => taken.push((*h, x, bytes)),
+                    Some(other) => {
+                        local.slots.insert(*h, other);
+                    }
+                    None => {}
+                }
+            }
+            if taken.is_empty() {
+                return Err(OpErr::Skip);
+            }
+            let pool = rayon_pool((*width).max(2));
+            let res = std::panic::catch_unwind(std::panic::AssertUnwindSafe(|| {
+                pool.scope(|s| {
+                    for (_, hs, bytes) in taken.iter_mut() {
+                        let b: &[u8] = bytes;
+                        s.spawn(move |_| {
+                            hs.h.update_rayon(b);
+                        });
+                    }
+                });
+            }));
+            let mut f = Fnv::default();
+            let mut verdict: Result<(), OpErr> = Ok(());
+            for (slot, mut hs, bytes) in taken {
+                hs.absorbed.extend_from_slice(bytes);
+                twin_update(&mut hs, bytes);
+                if verdict.is_ok() && res.is_ok() {
+                    let c = hs.h.count();
+                    if c != hs.absorbed.len() as u64 {
+                        verdict = viol("count-mismatch", format!("count()={} after a parallel update_rayon, {} bytes absorbed", c, hs.absorbed.len()));
+                    } else if hs.offset == 0 {
+                        let got = *hs.h.finalize().as_bytes();
+                        if let Err(e) = check_hash(sh, &hs, &got, "finalize after parallel update_rayon") {
+                            verdict = Err(e);
+                        }
+                        f.bytes(&got);
+                    }
+                }
+                local.slots.insert(slot, Slot::H(hs));
+            }
+            if res.is_err() {
+                return viol("panic", format!("update_rayon panicked while several hashers were fed inside one pool: {}", last_panic()));
+            }
+            verdict?;
+            sh.probe("parallel_update_rayon_in_one_pool");
+            Ok(f.0)
+        }
         Op::Reset { h, via } => {
             let hs = get!(local, *h, H);
             match via {
@@ -616,6 +734,28 @@ pub fn do_op(sh: &Arc<Shared>, local: &mut TaskLocal, op: &Op) -> OpResult {
             }
             local.slots.insert(*new, Slot::H(Box::new(c)));
             Ok(0xc10e)
+        }
+        Op::CloneFromH { src, dst } => {
+            if src == dst {
+                return Err(OpErr::Skip);
+            }
+            let (sh_h, s_mode, s_abs, s_off, s_twin) = match local.slots.get(src) {
+                Some(Slot::H(x)) => (x.h.clone(), x.mode.clone(), x.absorbed.clone(), x.offset, x.twin.clone()),
+                _ => return Err(OpErr::Skip),
+            };
+            let d = get!(local, *dst, H);
+            if (d.absorbed.len() / 1024).count_ones() > (s_abs.len() / 1024).count_ones() {
+                sh.probe("clone_from_into_deeper_stack");
+            }
+            d.h.clone_from(&sh_h);
+            d.mode = s_mode;
+            d.absorbed = s_abs;
+            d.offset = s_off;
+            d.twin = s_twin;
+            if d.h.count() != d.absorbed.len() as u64 {
+                return viol("count-mismatch", "clone_from: destination has a different count() than the source".into());
+            }
+            Ok(0xc10f)
         }
         Op::DropSlot { slot } => {
             local.slots.remove(slot);
